@@ -59,5 +59,4 @@ PROP = {
         "question:host_icann_wildcard", "question:host_private", "db:malformed_txt", "db:collision_name",
         "checkhost:mixed_case", "checkhost:verdict_parental",
     ]},
-    "claimed": False,
 }
